@@ -17,24 +17,24 @@ TABLE = {
         rule="a peer frame (valid, boundary-valued, malformed or garbage) is handed to recv",
         nontrivial=lambda n: _op(n) in ("recv", "garbage"), profile="hostile"),
     "C06": dict(
-        quick=["qos_c311", "qos_c50_rm", "qos_offline", "qos_server", "qos_order", "mps_resume", "opt_flips"],
-        thorough=["qos_c311", "qos_c311_auto", "qos_c50", "qos_c50_rm", "qos_offline", "qos_server", "mps_resume", "qos_order", "opt_flips"],
+        quick=["qos_c311", "qos_c50_rm", "qos_offline", "qos_server", "qos_order", "mps_resume", "opt_flips", "erase_reuse"],
+        thorough=["qos_c311", "qos_c311_auto", "qos_c50", "qos_c50_rm", "qos_offline", "qos_server", "mps_resume", "qos_order", "opt_flips", "erase_reuse"],
         rule="a QoS>0 PUBLISH/PUBREL is sent, acknowledged, erased or re-sent",
         nontrivial=lambda n: _kind(n) in ("publish", "pubrel", "puback", "pubrec", "pubcomp") or (_kind(n) == "connack" and n["call"]["pkt"]["sp"]),
         profile="qos"),
     "C07": dict(
-        quick=["in_qos2", "in_qos2_alias", "in_qos2_disc", "in_qos2_late"], thorough=["in_qos2", "in_qos2_alias", "in_qos2_disc", "in_qos2_late", "in_rm", "crash_in"],
+        quick=["in_qos2", "in_qos2_alias", "in_qos2_disc", "in_qos2_late", "in_qos2_badconnect"], thorough=["in_qos2", "in_qos2_alias", "in_qos2_disc", "in_qos2_late", "in_rm", "crash_in", "in_qos2_badconnect"],
         rule="a QoS 2 PUBLISH or a PUBREL is received",
         nontrivial=lambda n: _op(n) == "recv" and ((_kind(n) == "publish" and n["call"]["pkt"]["qos"] == 2) or _kind(n) == "pubrel"),
         profile="inbound"),
     "C08": dict(
-        quick=["qos_c311", "qos_offline", "gate", "ids_edge", "subs"],
-        thorough=["qos_c311", "qos_c311_auto", "qos_c50", "qos_c50_rm", "qos_offline", "qos_server", "gate", "reuse_c", "ids_edge", "subs"],
+        quick=["qos_c311", "qos_offline", "gate", "ids_edge", "subs", "erase_reuse", "free_id"],
+        thorough=["qos_c311", "qos_c311_auto", "qos_c50", "qos_c50_rm", "qos_offline", "qos_server", "gate", "reuse_c", "ids_edge", "subs", "erase_reuse", "free_id"],
         rule="an identifier is acquired, registered or released",
         nontrivial=lambda n: _op(n) in ("acquire", "register", "release") or any(e["ev"] == "released" for e in n["out"]),
         profile="ids"),
     "C10": dict(
-        quick=["reuse_c", "reuse_s", "reuse_sess"], thorough=["reuse_c", "reuse_c2", "reuse_s", "reuse_sess", "timers_c"],
+        quick=["reuse_c", "reuse_s", "reuse_sess", "timers_any"], thorough=["reuse_c", "reuse_c2", "reuse_s", "reuse_sess", "timers_c", "timers_any"],
         rule="a reused object runs next to a fresh shadow object after a close",
         nontrivial=lambda n: n.get("shadow") == "fresh", profile="reuse"),
     "C11": dict(
@@ -42,21 +42,21 @@ TABLE = {
         rule="send is called (one cell of role x version x state x kind)",
         nontrivial=lambda n: _op(n) == "send", profile="gate"),
     "C12": dict(
-        quick=["qos_c50_rm", "qos_server", "in_rm", "rm_alias", "in_rm_mps", "early_acks"], thorough=["qos_c50_rm", "qos_c50", "qos_server", "in_rm", "crash_out", "rm_alias", "in_rm_mps"],
+        quick=["qos_c50_rm", "qos_server", "in_rm", "rm_alias", "in_rm_mps", "early_acks", "mps_resume"], thorough=["qos_c50_rm", "qos_c50", "qos_server", "in_rm", "crash_out", "rm_alias", "in_rm_mps", "mps_resume"],
         rule="a Receive Maximum is in force (vacancy reported)",
         nontrivial=lambda n: n["obs"]["vacancy"] >= 0 or (_op(n) == "recv" and _kind(n) == "publish"), profile="qos"),
     "C13": dict(
-        quick=["alias_send", "alias_auto", "alias_srv", "alias_dup", "alias_lru"], thorough=["alias_send", "alias_auto", "alias_srv", "in_qos2_alias", "mps", "alias_dup", "alias_lru"],
+        quick=["alias_send", "alias_auto", "alias_srv", "alias_dup", "alias_lru", "alias_early"], thorough=["alias_send", "alias_auto", "alias_srv", "in_qos2_alias", "mps", "alias_dup", "alias_lru", "alias_early"],
         rule="a PUBLISH is sent or received on a v5.0 connection with topic aliases in play", quick_edges=45000,
         nontrivial=lambda n: _kind(n) == "publish" and (n["call"]["pkt"]["alias"] != 0 or any(e["ev"] == "send" and e["pkt"]["alias"] for e in n["out"])),
         profile="alias"),
     "C14": dict(
-        quick=["mps", "mps_resume"], thorough=["mps", "mps_resume", "alias_auto", "hostile"],
+        quick=["mps", "mps_resume", "alias_auto", "alias_mps"], thorough=["mps", "mps_resume", "alias_auto", "hostile", "alias_mps"],
         rule="a Maximum Packet Size is in force and a packet is sent or received",
         nontrivial=lambda n: (n["dig"] or {}).get("mpsSend", 268435461) < 268435461 or (n["dig"] or {}).get("mpsRecv", 268435461) < 268435461,
         profile="mps"),
     "C15": dict(
-        quick=["timers_c", "timers_s", "timers_s_all"], thorough=["timers_c", "timers_s", "timers_s_all", "mps", "autodetect", "reuse_c2"],
+        quick=["timers_c", "timers_s", "timers_s_all", "timers_any"], thorough=["timers_c", "timers_s", "timers_s_all", "mps", "autodetect", "reuse_c2", "timers_any"],
         rule="a timer event is returned or a timer fires",
         nontrivial=lambda n: _op(n) == "fire" or any(e["ev"].startswith("timer") for e in n["out"]), profile="timers"),
     "C16": dict(
